@@ -105,7 +105,16 @@ func shmBase() string {
 func New(sc *Scenario, k *kernel.Kernel) (*World, error) {
 	dirCounter++
 	dir := filepath.Join(shmBase(), fmt.Sprintf("verif-%d-%d", os.Getpid(), dirCounter))
-	_ = os.RemoveAll(dir)
+	if d := os.Getenv("VERIF_WORLD_DIR"); d != "" {
+		// L2: the parent chose the directory; a database left by an earlier
+		// incarnation survives (only durable state does)
+		dir = d
+		for _, sub := range []string{"hw", "files", "scripts"} {
+			_ = os.RemoveAll(filepath.Join(dir, sub))
+		}
+	} else {
+		_ = os.RemoveAll(dir)
+	}
 	if err := os.MkdirAll(dir, 0755); err != nil {
 		return nil, err
 	}
@@ -394,6 +403,9 @@ func quantise(d *DriverSpec, v int) int {
 	switch d.Quant {
 	case "mult":
 		if d.K > 1 {
+			if v >= 255 {
+				return 255 // full speed is always a level of its own
+			}
 			return v / d.K * d.K
 		}
 	case "levels":
@@ -530,10 +542,11 @@ func (w *World) BeforeRead(path string) error {
 	switch {
 	case ft.Kind == "eio":
 		ev.Err = "EIO"
-		ev.Done = true
+		w.K.Complete(ev)
 		return injectedErr("read", path, syscall.EIO)
 	case ft.Kind == "eacces":
 		ev.Err = "EACCES"
+		w.K.Complete(ev)
 		return injectedErr("open", path, syscall.EACCES)
 	case ft.Kind == "missing":
 		tmp := path + ".away"
@@ -581,6 +594,7 @@ func (w *World) AfterRead(path string, value int, err error) {
 		if err != nil {
 			ev.Err = errString(err)
 		}
+		w.K.Complete(ev)
 	}
 }
 
@@ -613,6 +627,7 @@ func (w *World) BeforeWrite(path string, value int) error {
 			if value < 0 || value > 255 {
 				ev.Err = "EINVAL"
 				ev.Fault = "driver.einval"
+				w.K.Complete(ev)
 				return injectedErr("write", path, syscall.EINVAL)
 			}
 		case "enable":
@@ -620,6 +635,7 @@ func (w *World) BeforeWrite(path string, value int) error {
 				ev.Err = "EINVAL"
 				ev.Fault = "mode.refused"
 				w.FaultsFired["mode.refused"]++
+				w.K.Complete(ev)
 				return injectedErr("write", path, syscall.EINVAL)
 			}
 		}
@@ -629,9 +645,11 @@ func (w *World) BeforeWrite(path string, value int) error {
 		switch ft.Kind {
 		case "error":
 			ev.Err = "EIO"
+			w.K.Complete(ev)
 			return injectedErr("write", path, syscall.EIO)
 		case "einval":
 			ev.Err = "EINVAL"
+			w.K.Complete(ev)
 			return injectedErr("write", path, syscall.EINVAL)
 		case "ignored":
 			old, _ := os.ReadFile(path)
@@ -646,9 +664,13 @@ func (w *World) AfterWrite(path string, value int, err error) {
 		return
 	}
 	ev := w.K.Current()
-	if ev != nil && ev.Kind == "write" && ev.Site == path && err != nil {
+	if ev != nil && !(ev.Kind == "write" && ev.Site == path) {
+		ev = nil
+	}
+	if ev != nil && err != nil {
 		ev.Err = errString(err)
 	}
+	defer w.K.Complete(ev)
 	if r := w.restore; r != nil && r.path == path {
 		// injected "silently ignored" write
 		w.restore = nil
@@ -735,6 +757,7 @@ func (w *World) BeforeExec(executable string, args []string) error {
 	case "timeout":
 		// the command would run into its deadline: fan2go sees the deadline error
 		ev.Err = "timeout"
+		w.K.Complete(ev)
 		return errors.New("signal: killed (injected timeout)")
 	default:
 		// replace the script for this one execution
@@ -800,6 +823,7 @@ func (w *World) AfterExec(executable string, args []string, out string, err erro
 		if err != nil {
 			ev.Err = errString(err)
 		}
+		defer w.K.Complete(ev)
 	}
 	if r := w.restore; r != nil && r.path == executable {
 		w.restore = nil
